@@ -640,6 +640,41 @@ func stageLifecycleRules(c *core.Ctx, s *Stage, o lifecycleOpts) {
 		}
 	}
 
+	// ---- what is handed to the caller is only ever sent on -----------------------------
+	// A channel the stage returns belongs to the caller's side for receiving. A library goroutine that receives from
+	// it (to "make room" in a full error channel, to peek) takes a value the caller was to get.
+	{
+		if c.Rules["outputs-send-only"] == nil {
+			c.Doc("outputs-send-only", 1, "no goroutine of a stage receives from a channel the stage returns to its caller")
+		}
+		bad := false
+		for _, pr := range procs {
+			for _, p := range pr.an.AllPaths() {
+				for i := range p.Steps {
+					st := &p.Steps[i]
+					var ch *ir.Term
+					switch {
+					case st.Kind == ir.KRecv && len(st.A) > 0:
+						ch = st.A[0]
+					case st.Kind == ir.KSelect:
+						for _, a := range st.Arms {
+							if !a.Send && returned[a.Chan.Key()] {
+								ch = a.Chan
+							}
+						}
+					}
+					if ch != nil && returned[ch.Key()] && !bad {
+						bad = true
+						c.Fail("outputs-send-only", pr.name, st.Pos(), "the goroutine receives from %s, a channel the stage hands to its caller: a value (an error report) the caller was to receive is taken back and dropped", chanLabel(s, ch))
+					}
+				}
+			}
+		}
+		if !bad {
+			c.Ok("outputs-send-only", s.Name, s.Fn.Pos(), "")
+		}
+	}
+
 	// ---- the stage function itself leaves its inputs alone --------------------------
 	// Elements are taken from an input by the goroutine whose element loop hands them on. A receive in the stage
 	// function itself (a probe "is this input already closed?", however non-blocking) takes an element that no loop
